@@ -512,6 +512,9 @@ func c42Check(tb ev.TB, rec *ev.Rec, k *c42Case) {
 		if op.Kind == "flip" {
 			cl += "/" + op.Reg
 		}
+		if op.Kind == "hdrtype" {
+			cl += fmt.Sprintf("/to-%d", []int{20, 21, 22, 24, 0x80}[op.N%5])
+		}
 		classes = append(classes, cl, cl+"/"+si.class)
 	}
 	switch {
@@ -577,7 +580,7 @@ func c42Check(tb ev.TB, rec *ev.Rec, k *c42Case) {
 }
 
 var c42Kinds = []string{"flip", "flip", "flip", "trunc", "shrink", "extend", "drop", "dup", "replay", "swap", "splice", "garbage",
-	"cut", "cutin", "hdrtype", "hdrvers", "hdrlen", "replayhs"}
+	"cut", "cutin", "hdrtype", "hdrtype", "hdrvers", "hdrlen", "replayhs"}
 
 func drawC42(rt *rapid.T) *c42Case {
 	k := &c42Case{}
@@ -646,6 +649,10 @@ func TestC42(t *testing.T) {
 			}
 			for _, reg := range []string{"hdr", "iv", "body", "tail"} {
 				kinds = append(kinds, c42Op{Kind: "flip", Rec: 1, Reg: reg, Off: 2, Bit: 3})
+			}
+			// every content type the record could be relabelled to (N=3 is covered above)
+			for _, n := range []int{0, 1, 2, 4} {
+				kinds = append(kinds, c42Op{Kind: "hdrtype", Rec: 1, N: n})
 			}
 			if ev.Tier() == "quick" && v == vTLS11 {
 				kinds = kinds[:1] // TLS 1.1 differs from 1.2 only in the PRF for these suites; full sweep in thorough
